@@ -190,3 +190,15 @@ def run(ctx, tier):
             'stored in DBInner.file, DBInner is built only in DBInner::open and owned only through the Arc in DB, and the crate never calls unlock / try_clone / raw-fd conversions. '
             'NOT decided: flock semantics between processes, the exists/create race itself, waiting behaviour.'),
         assumptions=['flock(LOCK_EX) on an open file description excludes other openers until the description is closed'])
+
+
+def file_lock_clauses(ctx, prefix):
+    """the lock-before-use and lock-lives clauses of C13 under another property's name (they are necessary wherever "one opener at a time" is relied upon);
+    the creation-branch known finding (lock-before-write) stays with C13"""
+    from core import R
+    out = []
+    for r in run(ctx, 'quick')['results']:
+        if r.rule in ('C13.lock-before-use', 'C13.lock-lives'):
+            nr = prefix + '.file-' + r.rule.split('.', 1)[1]
+            out.append(R(nr, r.ok, key=r.key.replace(r.rule, nr, 1), msg=r.msg, where=r.where, path=r.path, sites=r.sites, detail=r.detail))
+    return out
